@@ -101,7 +101,7 @@ func (x *Exec) callFn(callee *ssa.Function, bind []Value, args []Value, st *Stat
 			return x.applyContract(c, args, st, pc)
 		}
 	}
-	if callee.Blocks == nil {
+	if callee.Blocks == nil || callee.Pkg == nil || !strings.HasPrefix(callee.Pkg.Pkg.Path(), modPath) {
 		unsupported("external function without stub: %s", fullName(callee))
 	}
 	if x.inSpec == 0 {
@@ -426,6 +426,51 @@ func (x *Exec) stub(callee *ssa.Function, args []Value, st *State, pc *Term) (Va
 			sum = b.Bin("bvadd", sum, b.ZExt(64, b.Extract(k, k, t)))
 		}
 		return sum, true
+	case "flag.StringVar", "flag.UintVar", "flag.BoolVar", "flag.IntVar", "flag.Parse":
+		// the flag variables hold arbitrary values of their type (they are
+		// package-level variables whose address escapes: havocked by initPackage)
+		x.usedStub("flag.*Var / flag.Parse (variables hold arbitrary values afterwards)")
+		return nil, true
+	case "os.ReadFile":
+		x.usedStub(fn + " (returns an arbitrary byte slice or an error)")
+		x.seq++
+		sl := x.symV(callee.Signature.Results().At(0).Type(), fmt.Sprintf("readfile%d", x.seq), st.h).(*SliceV)
+		err := x.osErr(st, pc, "os.ReadFile")
+		if _, ok := x.ld.ghostField2(x, "In"); ok {
+			x.ghostSetV(st, "In", sl)
+		}
+		return &TupleV{E: []Value{sl, err}}, true
+	case "os.Create":
+		x.usedStub(fn + " (returns a file or an error)")
+		o := x.newObj("os.File", nil)
+		st.h[o] = &StructV{}
+		return &TupleV{E: []Value{&PtrV{Obj: o}, x.osErr(st, pc, "os.Create")}}, true
+	case "os.(*File).Close":
+		x.usedStub(fn)
+		return &IfaceV{Nil: b.Fresh("close_err_isnil", BoolS()), Opaque: "close.err"}, true
+	case "bufio.NewWriter":
+		x.usedStub(fn + " (a buffered writer whose content reaches the file on a nil Flush)")
+		o := x.newObj("bufio.Writer", nil)
+		st.h[o] = &StructV{}
+		return &PtrV{Obj: o}, true
+	case "bufio.(*Writer).WriteByte":
+		x.usedStub(fn + " (appends the byte; a failure makes every later call fail)")
+		o := x.newObj("bytechunk", nil)
+		st.h[o] = b.Store(b.ConstArr(Arr(BV(64), BV(8)), b.Const(8, 0)), b.Const(64, 0), args[1].(*Term))
+		x.appendChunk(st, &SliceV{Obj: o, Off: b.Const(64, 0), Len: b.Const(64, 1), Cap: b.Const(64, 1)}, pc)
+		return x.osErr(st, pc, "WriteByte"), true
+	case "bufio.(*Writer).Write":
+		x.usedStub(fn + " (appends all of p; a failure makes every later call fail)")
+		p := args[1].(*SliceV)
+		x.appendChunk(st, p, pc)
+		return &TupleV{E: []Value{p.Len, x.osErr(st, pc, "Write")}}, true
+	case "bufio.(*Writer).Flush":
+		x.usedStub(fn)
+		return x.osErr(st, pc, "Flush"), true
+	case "fmt.Errorf":
+		x.usedStub(fn)
+		x.seq++
+		return &IfaceV{Nil: b.False(), Opaque: fmt.Sprintf("fmt.Errorf#%d", x.seq), T: callee.Signature.Results().At(0).Type()}, true
 	case "context.WithCancel":
 		x.usedStub(fn)
 		x.seq++
@@ -605,4 +650,63 @@ func (x *Exec) countWarn(st *State, pc *Term) {
 		n := x.ghostGet2(st, "Warns")
 		x.ghostSet2(st, "Warns", x.b.Bin("bvadd", n, x.b.Ite(pc, x.b.Const(n.S.W, 1), x.b.Const(n.S.W, 0))))
 	}
+}
+
+// osErr: the error result of an OS / I/O stub: nil or not; a failure is
+// recorded in the ghost flag OSFailed.
+func (x *Exec) osErr(st *State, pc *Term, what string) *IfaceV {
+	b := x.b
+	x.seq++
+	isnil := b.Fresh("err_"+sanitize(what)+"_isnil", BoolS())
+	if _, ok := x.ld.ghostField2(x, "OSFailed"); ok {
+		x.ghostSet2(st, "OSFailed", b.Or(x.ghostGet2(st, "OSFailed"), b.And(pc, b.Not(isnil))))
+	}
+	return &IfaceV{Nil: isnil, Opaque: fmt.Sprintf("oserr:%s#%d", what, x.seq)}
+}
+
+func (x *Exec) ghostSetV(st *State, name string, v Value) {
+	i, _ := x.ld.ghostField2(x, name)
+	g := st.h[x.gobj].(*StructV)
+	n := &StructV{F: append([]Value{}, g.F...)}
+	n.F[i] = v
+	st.h[x.gobj] = n
+}
+
+// appendChunk records a write to the output stream: the chunk list of the
+// ghost record (fields C0, C1, …, counter NC) gets a snapshot of the slice.
+func (x *Exec) appendChunk(st *State, p *SliceV, pc *Term) {
+	if _, ok := x.ld.ghostField2(x, "NC"); !ok {
+		unsupported("buffered write without a chunk-list ghost")
+	}
+	nc := x.ghostGet2(st, "NC")
+	if !isC(nc) {
+		unsupported("output chunk counter is not a constant on this path (a write inside a loop or a join?)")
+	}
+	name := fmt.Sprintf("C%d", nc.Val)
+	if _, ok := x.ld.ghostField2(x, name); !ok {
+		unsupported("more output chunks than the ghost record has fields")
+	}
+	snap := x.newObj("chunk:"+name, nil)
+	if p.Obj != nil {
+		arr := x.readArr(st, p.Obj, p.Path)
+		if arr.S.I.W != 64 {
+			// a view of a fixed-size array: copy the (constantly many) elements
+			if !isC(p.Len) || !isC(p.Off) || p.Len.Val > 256 {
+				unsupported("write of a symbolic part of a fixed-size array")
+			}
+			na := x.b.ConstArr(Arr(BV(64), arr.S.E), x.b.Const(arr.S.E.W, 0))
+			for i := uint64(0); i < p.Len.Val; i++ {
+				na = x.b.Store(na, x.b.Const(64, i), x.sel(arr, x.adaptIdx(arr, x.b.Const(64, p.Off.Val+i))))
+			}
+			st.h[snap] = na
+			x.ghostSetV(st, name, &SliceV{Obj: snap, Off: x.b.Const(64, 0), Len: p.Len, Cap: p.Len})
+			x.ghostSet2(st, "NC", x.b.Const(nc.S.W, nc.Val+1))
+			return
+		}
+		st.h[snap] = arr
+	} else {
+		st.h[snap] = x.b.ConstArr(Arr(BV(64), BV(8)), x.b.Const(8, 0))
+	}
+	x.ghostSetV(st, name, &SliceV{Obj: snap, Off: p.Off, Len: p.Len, Cap: p.Len})
+	x.ghostSet2(st, "NC", x.b.Const(nc.S.W, nc.Val+1))
 }
